@@ -8,3 +8,5 @@ open Femio.C12
 #print axioms C12_area_sum_zero
 #print axioms C12_divergence
 #print axioms C12_normal_is_area_vector
+#print axioms C12_similarity_area
+#print axioms C12_similarity_sign
